@@ -256,6 +256,11 @@ let gen_main n seed0 maxops out =
            if twice then begin
              ops := item true :: !ops; incr nops; bump "repeated";
              e := do_action !e (nat_of_int target) act optv
+           end else if hold && rnd 3 = 0 then begin
+             (* ... or taken back at once: cancel on the same act while what the action scheduled is still queued *)
+             ops := Json.Obj [("t", Json.Int target); ("a", Json.Str "cancel"); ("o", Json.Obj []); ("hold", Json.Bool true)] :: !ops;
+             incr nops; bump "cancel"; bump "held";
+             e := do_action !e (nat_of_int target) ACancel []
            end;
            if not hold then e := drain_track !e
          end;
